@@ -25,6 +25,18 @@ CHECKS = {
             "sorted lists and every tuple replayed into the real assert_no_intersection; published lists of the compiled corpus compared with "
             "the specification's sorted wire-name sets",
             "TLA+ spec + TLC (exhaustive small scope), replay of TLC-enumerated inputs, trace validation"),
+    "C06": ("static", "6 C06", "all 1024 combinations of overridden kinds x migrate x reply x replies feature x generic expanded by the real "
+            "entry_points macro in-process (verif-hook); set of emitted entry points and per-function token hashes judged by TLC against Static.tla",
+            "TLA+ spec + TLC (exhaustive configuration space), in-process expansion, trace validation of Expand events"),
+    "C13": ("static", "6 C13", "attribute placements over item/handler/helper/parameters for the three macros plus every annotated item of the "
+            "repository's tests and examples; re-emitted item vs input skeleton and determinism (in-process and across processes) judged by TLC",
+            "TLA+ spec + TLC, in-process expansion of generated and real sources, trace validation"),
+    "C15": ("static", "6 C15", "all assignments of type-parameter occurrence shapes to handler arguments and query responses; parameter lists and bounds "
+            "of the generated message types judged by TLC against Used/KeptWheres",
+            "TLA+ spec + TLC (exhaustive small scope), in-process expansion, trace validation"),
+    "C17": ("static", "6 C17", "all ordered pairs of forwarding sites (type of a kind, handler variant, handler argument) with distinguishable marker "
+            "attributes for contracts and interfaces; occurrences of each marker judged by TLC",
+            "TLA+ spec + TLC (exhaustive small scope), in-process expansion, trace validation"),
 }
 
 
@@ -64,6 +76,9 @@ def main():
             {"name": "routing", "path": "spec/Runtime.tla, spec/MC_Routing.tla, spec/Trace_Routing.tla, harness/gen/routing.py, harness/rrt",
              "serves_properties": ["C01", "C02", "C03", "C04", "C05"],
              "kind_free_text": "TLC bounded model + generated corpus compiled against /repo + TLC trace validation"},
+            {"name": "static", "path": "spec/Static.tla, spec/MC_Static.tla, spec/Trace_Static.tla, harness/gen/static.py, harness/inproc/harness.rs",
+             "serves_properties": ["C06", "C13", "C15", "C17"],
+             "kind_free_text": "TLC-enumerated source items expanded in-process by the real macro implementations + TLC trace validation"},
             {"name": "merge", "path": "spec/Merge.tla, spec/MC_Merge.tla, spec/Trace_Merge.tla, harness/merge",
              "serves_properties": ["C05"], "kind_free_text": "TLC exhaustive small scope + replay into the real function"},
         ],
@@ -75,7 +90,7 @@ def main():
         json.dump(m, f, indent=1)
 
 
-HOOK_COMMITS = []
+HOOK_COMMITS = ["133ed4a"]
 
 if __name__ == "__main__":
     main()
